@@ -4,6 +4,7 @@ import AdfObdd.AdfModel
 import AdfObdd.StableExact
 import AdfObdd.OpsProofs
 import AdfObdd.BioProofs
+import AdfObdd.HybridExample
 /-! # C03 — enumerate-and-check stable semantics
 
 The code's test for a two-valued candidate `v`: restrict every condition by `v`'s false statements
@@ -135,7 +136,9 @@ end C03
 namespace C03
 open Bio (BExpr)
 
-/-- the definition used throughout C03, as one predicate (`StableExact.StableI` unfolded) -/
+/-- the definition used throughout C03, as one predicate (`StableExact.StableI` unfolded). The quantifier
+`∀ w, IsLfp (redu D v) w → …` is not vacuous: every list of conditions has a least fixpoint
+(`C01.grounded_biodivine_model_is_lfp`), unique by `C01.grounded_unique`. -/
 def Stable (D : List BoolFn) (v : I3) : Prop :=
   TotalI v ∧ Gam D v = v ∧
     ∀ w : I3, IsLfp (redu D v) w → ∀ i : Nat, v[i]? = some (some true) → w[i]? = some (some true)
@@ -317,26 +320,7 @@ end C03
 
 namespace C03
 
-/-- the conditions' handles of `from_parser` on written formulas denote the formulas (list form of
-`buildNative_correct`) -/
-theorem buildNative_fns (fms : List Fm) (hn : fms.length ≤ VBOT) (hv : ∀ f ∈ fms, f.atomsOK) :
-    WF (buildNative fms.length fms).1 ∧ (buildNative fms.length fms).2.length = fms.length ∧
-    (∀ t ∈ (buildNative fms.length fms).2, t < (buildNative fms.length fms).1.nodes.size) ∧
-    (buildNative fms.length fms).2.map (eval (buildNative fms.length fms).1) = fms.map Fm.sem := by
-  obtain ⟨w, hl, hok⟩ := buildNative_correct fms.length fms hn hv
-  refine ⟨w, hl, ?_, ?_⟩
-  · intro t ht
-    obtain ⟨i, hi, rfl⟩ := List.getElem_of_mem ht
-    have hi' : i < fms.length := by rw [← hl]; exact hi
-    exact (hok i _ fms[i] (List.getElem?_eq_getElem hi) (List.getElem?_eq_getElem hi')).1
-  · apply List.ext_getElem
-    · simp [hl]
-    · intro i h1 h2
-      simp only [List.getElem_map]
-      have hi : i < (buildNative fms.length fms).2.length := by simpa using h1
-      have hi' : i < fms.length := by simpa using h2
-      funext σ
-      exact (hok i _ fms[i] (List.getElem?_eq_getElem hi) (List.getElem?_eq_getElem hi')).2 σ
+-- (`buildNative_fns`, the list form of `buildNative_correct`, now lives in `AdfObdd/HybridParser.lean`)
 
 /-- **the oracle beyond truth-table size** (see `C02.complete_exact_from_formulas`): the stable
 enumeration of the model on the freshly compiled store lists exactly the stable models of the
@@ -354,4 +338,170 @@ theorem stable_exact_from_formulas (fms : List Fm) (hn : fms.length ≤ VBOT) (h
   rw [hf] at h
   exact h
 
+/-- native example with TWO statements and TWO stable models: `s(a). s(b). ac(a,neg(b)). ac(b,neg(a)).`
+compiled by the `from_parser` model; `stableAll` on the compiled store returns exactly `T F` and `F T`
+(through `stable_exact_from_formulas`; stability by evaluation on the truth-table library) -/
+example :
+    let b := buildNative 2 Bio.exMutual
+    let out := (stableAll b.1 2 b.2).2.map (fun v => v.map storeIsConst)
+    [some true, some false] ∈ out ∧ [some false, some true] ∈ out ∧
+    [some true, some true] ∉ out ∧ [some false, some false] ∉ out ∧ out.Nodup := by
+  have h := stable_exact_from_formulas Bio.exMutual (by simp [Bio.exMutual, VBOT])
+    (fun f hf => NConc.atomsOK_of_lt (by simp [Bio.exMutual, VBOT]) f (Bio.exMutual_ok f hf))
+  have t := Bio.tt_stable Bio.exMutual Bio.exMutual_ok
+  have key : ∀ v : I3, v ∈ (stableAll (buildNative 2 Bio.exMutual).1 2 (buildNative 2 Bio.exMutual).2).2.map
+      (fun v => v.map storeIsConst) ↔
+      v ∈ (Bio.bioStable (Bio.ttLib 2) (Bio.fromFormulas (Bio.ttLib 2) Bio.exMutual)).map (fun v => v.map storeIsConst) :=
+    fun v => (h.2 v).trans (t v).symm
+  refine ⟨(key _).mpr (by decide), (key _).mpr (by decide), fun hin => ?_, fun hin => ?_, h.1⟩
+  · have := (key _).mp hin; revert this; decide
+  · have := (key _).mp hin; revert this; decide
+
+/-- **`hsame` derived.** `native_rewriting_exact` for a native object and a biodivine object instantiated
+from ONE written framework (`fms`: one condition per statement, declaration order, every atom a statement;
+native `from_parser` model `buildNative`, biodivine `from_parser` model `Bio.fromFormulas` =
+`eval_expression ∘ to_boolean_expr`; `prepared` chooses `from_parser_with_stm_rewrite`): no hypothesis
+about the two objects is left, and the answers are the stable models of the WRITTEN conditions -/
+theorem native_rewriting_exact_from_formulas {T : Type} (L : Bio.Lib T) (fms : List Fm)
+    (W : Bio.Lawful L fms.length) (hn : fms.length ≤ VBOT)
+    (hv : ∀ f ∈ fms, NConc.atomsLt fms.length f) (prepared : Bool) :
+    let b := buildNative fms.length fms
+    let rw := if prepared then some (Bio.rewritingOfFormulas L fms) else none
+    let r := Bio.nativeStableRep b.1 fms.length b.2 (Bio.stableModelCandidates L rw (Bio.fromFormulas L fms))
+    let out := r.2.map (fun v => v.map storeIsConst)
+    (WF r.1 ∧ Ext b.1 r.1) ∧ out.Nodup ∧
+    (∀ v : I3, v ∈ out ↔ (v.length = fms.length ∧ Stable (fms.map Fm.sem) v)) ∧
+    ((∀ v : I3, ¬ (v.length = fms.length ∧ Stable (fms.map Fm.sem) v)) → r.2 = []) := by
+  intro b rw
+  have hok : ∀ f ∈ fms, f.atomsOK := fun f hf => NConc.atomsOK_of_lt hn f (hv f hf)
+  obtain ⟨w, hl, hlt, hf⟩ := buildNative_fns fms hn hok
+  obtain ⟨a1, a2, _, _⟩ := Bio.fromFormulas_spec fms W hv
+  have hg : Bio.GoodRewrite W (Bio.fromFormulas L fms) rw := by
+    cases prepared with
+    | false => exact trivial
+    | true => exact Bio.rewritingOfFormulas_good fms W hv
+  have h := native_rewriting_exact L fms.length W b.1 b.2 w hl hlt rw (Bio.fromFormulas L fms) a2 a1
+    (Bio.native_bio_same_functions fms W hn hv) hg
+  simp only at h
+  rw [hf] at h
+  exact h
+
+/-- non-vacuity: the mutual attack, candidates from the truth-table library, both rewriting variants -/
+example (prepared : Bool) :
+    let b := buildNative 2 Bio.exMutual
+    let rw := if prepared then some (Bio.rewritingOfFormulas (Bio.ttLib 2) Bio.exMutual) else none
+    let r := Bio.nativeStableRep b.1 2 b.2
+      (Bio.stableModelCandidates (Bio.ttLib 2) rw (Bio.fromFormulas (Bio.ttLib 2) Bio.exMutual))
+    [some true, some false] ∈ r.2.map (fun v => v.map storeIsConst) ∧
+    [some true, some true] ∉ r.2.map (fun v => v.map storeIsConst) := by
+  have h := native_rewriting_exact_from_formulas (Bio.ttLib 2) Bio.exMutual (Bio.ttLawful 2)
+    (by simp [Bio.exMutual, VBOT]) Bio.exMutual_ok prepared
+  have t := Bio.tt_stable Bio.exMutual Bio.exMutual_ok
+  refine ⟨(h.2.2.1 _).mpr ((t _).mp (by decide)), fun hin => ?_⟩
+  have := (t _).mpr ((h.2.2.1 _).mp hin)
+  revert this; decide
+
 end C03
+
+/-! ## the hybrid back-end (`hybrid_step_opt` + native stable searches) end to end -/
+namespace C03
+
+/-- **hybrid back-end, end to end** (`Adf::stable` and `Adf::stable_with_prefilter` on the native object
+built by `hybrid_step_opt(opt)`, model `Bio.hybridStep`): without duplicates exactly the stable models of
+the ORIGINAL conditions `ac.map W.den`, both variants the same list, both values of the flag.
+Assumptions about the external crate: `W`, `hd` (see `C01.hybrid_grounded_is_lfp`). -/
+theorem hybrid_stable_exact {T : Type} (L : Bio.Lib T) (n : Nat) (W : Bio.Lawful L n)
+    (dump : T → List Node) (hd : Bio.DumpSpec W dump) (opt : Bool)
+    (ac : List T) (hv : ∀ a ∈ ac, W.Valid a) (hn : ac.length = n) :
+    let r := Bio.hybridStep L dump opt ac
+    let out := (stableAll r.1 n r.2).2.map (fun v => v.map storeIsConst)
+    out.Nodup ∧ (∀ v : I3, v ∈ out ↔ (v.length = n ∧ Stable (ac.map W.den) v)) ∧
+    (Cli.stablePre r.1 n r.2).2 = (stableAll r.1 n r.2).2 :=
+  Bio.hybrid_stable W hd opt ac hv hn
+
+/-- the counting-guided search (`stable_count_optimisation_heu_a/b`, C04) on the hybrid-built object -/
+theorem hybrid_count_search_exact {T : Type} (L : Bio.Lib T) (n : Nat) (W : Bio.Lawful L n)
+    (dump : T → List Node) (hd : Bio.DumpSpec W dump) (opt useA : Bool)
+    (ac : List T) (hv : ∀ a ∈ ac, W.Valid a) (hn : ac.length = n) :
+    let r := Bio.hybridStep L dump opt ac
+    let out := (countAll r.1 n r.2 useA).2.map (fun v => v.map storeIsConst)
+    out.Nodup ∧ ∀ v : I3, v ∈ out ↔ (v.length = n ∧ Stable (ac.map W.den) v) :=
+  Bio.hybrid_count W hd opt useA ac hv hn
+
+/-- the nogood-learning search (C05) on the hybrid-built object, every built-in heuristic: halts and
+emits each stable model (`stable = true`) resp. each two-valued model (`stable = false`) of the ORIGINAL
+conditions once. `hsup` (two-valued mode only, as in `C05.ng_search_exact`): the conditions depend on the
+`n` statements only - derived for parsed frameworks in `hybrid_ng_search_from_formulas` -/
+theorem hybrid_ng_search_exact {T : Type} (L : Bio.Lib T) (n : Nat) (W : Bio.Lawful L n)
+    (dump : T → List Node) (hd : Bio.DumpSpec W dump) (h : SM.Heu) (opt stable : Bool)
+    (ac : List T) (hv : ∀ a ∈ ac, W.Valid a) (hn : ac.length = n)
+    (hsup : stable = false → ∀ a ∈ ac, TT.DetBy n (W.den a)) :
+    let r := Bio.hybridStep L dump opt ac
+    ∃ fuel, (SM.ngSearch h fuel r.1 n r.2 stable).2.2.2 = true ∧
+      let D := ac.map W.den
+      let out := (SM.ngSearch h fuel r.1 n r.2 stable).2.1.map (fun v => v.map storeIsConst)
+      out.Nodup ∧ ∀ v : I3, v ∈ out ↔
+        (v.length = n ∧ TotalI v ∧ Gam D v = v ∧
+          (stable = true → ∀ w : I3, IsLfp (redu D v) w → ∀ i : Nat, v[i]? = some (some true) → w[i]? = some (some true))) :=
+  Bio.hybrid_ng W hd h opt stable ac hv hn hsup
+
+/-- the three searches from the WRITTEN framework (biodivine `from_parser`, `hybrid_step_opt`, native
+search): the stable models of the written conditions -/
+theorem hybrid_stable_from_formulas {T : Type} (L : Bio.Lib T) (fms : List Fm) (W : Bio.Lawful L fms.length)
+    (dump : T → List Node) (hd : Bio.DumpSpec W dump) (opt useA : Bool)
+    (hv : ∀ f ∈ fms, NConc.atomsLt fms.length f) :
+    let r := Bio.hybridStep L dump opt (Bio.fromFormulas L fms)
+    let out := (stableAll r.1 fms.length r.2).2.map (fun v => v.map storeIsConst)
+    let outc := (countAll r.1 fms.length r.2 useA).2.map (fun v => v.map storeIsConst)
+    (out.Nodup ∧ ∀ v : I3, v ∈ out ↔ (v.length = fms.length ∧ Stable (fms.map Fm.sem) v)) ∧
+    (outc.Nodup ∧ ∀ v : I3, v ∈ outc ↔ (v.length = fms.length ∧ Stable (fms.map Fm.sem) v)) := by
+  have ⟨a, b, c, _⟩ := Bio.fromFormulas_spec fms W hv
+  have h1 := Bio.hybrid_stable W hd opt _ b a
+  have h2 := Bio.hybrid_count W hd opt useA _ b a
+  rw [c] at h1 h2
+  exact ⟨⟨h1.1, h1.2.1⟩, h2⟩
+
+theorem hybrid_ng_search_from_formulas {T : Type} (L : Bio.Lib T) (fms : List Fm) (W : Bio.Lawful L fms.length)
+    (dump : T → List Node) (hd : Bio.DumpSpec W dump) (h : SM.Heu) (opt stable : Bool)
+    (hv : ∀ f ∈ fms, NConc.atomsLt fms.length f) :
+    let r := Bio.hybridStep L dump opt (Bio.fromFormulas L fms)
+    ∃ fuel, (SM.ngSearch h fuel r.1 fms.length r.2 stable).2.2.2 = true ∧
+      let D := fms.map Fm.sem
+      let out := (SM.ngSearch h fuel r.1 fms.length r.2 stable).2.1.map (fun v => v.map storeIsConst)
+      out.Nodup ∧ ∀ v : I3, v ∈ out ↔
+        (v.length = fms.length ∧ TotalI v ∧ Gam D v = v ∧
+          (stable = true → ∀ w : I3, IsLfp (redu D v) w → ∀ i : Nat, v[i]? = some (some true) → w[i]? = some (some true))) := by
+  have ⟨a, b, c, d⟩ := Bio.fromFormulas_spec fms W hv
+  have := Bio.hybrid_ng W hd h opt stable _ b a (fun _ => d)
+  rw [c] at this; exact this
+
+/-- non-vacuity (lawful truth-table library over two variables with its decision-tree dump): the mutual
+attack through the hybrid pipeline, both flags, enumeration and counting search: `T F` and `F T` are
+answers, `T T` is not -/
+example (opt useA : Bool) :
+    let r := Bio.hybridStep (Bio.ttLib 2) Bio.ttDump2 opt (Bio.fromFormulas (Bio.ttLib 2) Bio.exMutual)
+    let out := (stableAll r.1 2 r.2).2.map (fun v => v.map storeIsConst)
+    let outc := (countAll r.1 2 r.2 useA).2.map (fun v => v.map storeIsConst)
+    ([some true, some false] ∈ out ∧ [some false, some true] ∈ out ∧ [some true, some true] ∉ out) ∧
+    ([some true, some false] ∈ outc ∧ [some false, some true] ∈ outc ∧ [some true, some true] ∉ outc) := by
+  have h := hybrid_stable_from_formulas (Bio.ttLib 2) Bio.exMutual (Bio.ttLawful 2) Bio.ttDump2
+    Bio.ttDump2_spec opt useA Bio.exMutual_ok
+  have t := Bio.tt_stable Bio.exMutual Bio.exMutual_ok
+  refine ⟨⟨(h.1.2 _).mpr ((t _).mp (by decide)), (h.1.2 _).mpr ((t _).mp (by decide)), fun hin => ?_⟩,
+    ⟨(h.2.2 _).mpr ((t _).mp (by decide)), (h.2.2 _).mpr ((t _).mp (by decide)), fun hin => ?_⟩⟩
+  · have := (t _).mpr ((h.1.2 _).mp hin); revert this; decide
+  · have := (t _).mpr ((h.2.2 _).mp hin); revert this; decide
+
+/-- non-vacuity of `hybrid_ng_search_exact` / `…_from_formulas`: every heuristic, both flags, both modes -
+the search on the hybrid-built mutual attack halts and `T F` is among its answers -/
+example (h : SM.Heu) (opt stable : Bool) :
+    let r := Bio.hybridStep (Bio.ttLib 2) Bio.ttDump2 opt (Bio.fromFormulas (Bio.ttLib 2) Bio.exMutual)
+    ∃ fuel, (SM.ngSearch h fuel r.1 2 r.2 stable).2.2.2 = true ∧
+      [some true, some false] ∈ (SM.ngSearch h fuel r.1 2 r.2 stable).2.1.map (fun v => v.map storeIsConst) := by
+  obtain ⟨fuel, h1, _, h3⟩ := hybrid_ng_search_from_formulas (Bio.ttLib 2) Bio.exMutual (Bio.ttLawful 2)
+    Bio.ttDump2 Bio.ttDump2_spec h opt stable Bio.exMutual_ok
+  have st := (Bio.tt_stable Bio.exMutual Bio.exMutual_ok [some true, some false]).mp (by decide)
+  exact ⟨fuel, h1, (h3 _).mpr ⟨st.1, st.2.1, st.2.2.1, fun _ => st.2.2.2⟩⟩
+
+end C03
+
